@@ -265,7 +265,7 @@ pub fn run(args: &RunArgs) -> i32 {
     let pool = crate::worker::Pool::new("c12-loader", args.threads);
     let slot = std::sync::atomic::AtomicUsize::new(0);
     let sample: Mutex<Option<String>> = Mutex::new(None);
-    let (dev, budget) = if args.quick() { (3, 50) } else { (4, 2400) };
+    let (dev, budget) = if args.quick() { (4, 50) } else { (5, 2400) };
     thread_local! { static SLOT: std::cell::Cell<usize> = const { std::cell::Cell::new(usize::MAX) }; }
     let stats = explore(&ExploreCfg { max_dev: dev, threads: args.threads, budget: Duration::from_secs(budget) }, |c: &mut Chooser| {
         let mut doc = gen_doc(c, &sch, 2, true);
